@@ -397,6 +397,46 @@ func runTermMon(c *harness.Ctx) {
 	m := newTermMonitor()
 	c.AtEnd(func() { signal.Stop(m.sigChan) })
 	realHandlers := t.Draw("realhandlers", 2) == 1
+	ors = map[net.Conn]*stubServerFactory{}
+	orByAddr := func(addr string) *stubServerFactory {
+		for conn, f := range ors {
+			if conn.RemoteAddr().String() == addr {
+				return f
+			}
+		}
+		return nil
+	}
+	verifDialOr = func(info *pt.ServerInfo, addr, name string) (net.Conn, error) {
+		f := orByAddr(addr)
+		if f == nil {
+			return nil, fmt.Errorf("verif: ORPort dial for an unknown connection %q", addr)
+		}
+		if f.inWork != nil {
+			*f.inWork++
+			f.c.S.Sleep(f.orWork / 2)
+			*f.inWork--
+		}
+		if f.orFails {
+			return nil, &net.OpError{Op: "dial", Net: "tcp", Err: syscall.ECONNREFUSED}
+		}
+		l := f.c.Net.NewLink(fmt.Sprintf("h%d", f.idx), fmt.Sprintf("or%d", f.idx))
+		trackOut(l.A)
+		f.c.S.Go(fmt.Sprintf("or%d/orport", f.idx), func() {
+			buf := make([]byte, 64)
+			if _, err := l.B.Read(buf); err != nil {
+				return
+			}
+			l.B.Write([]byte("hello client"))
+			f.c.S.Sleep(f.orWork)
+			l.B.Close()
+		})
+		return l.A, nil
+	}
+	c.AtEnd(func() {
+		verifDialOr = func(*pt.ServerInfo, string, string) (net.Conn, error) {
+			return nil, fmt.Errorf("verif: no simulated ORPort in this scenario")
+		}
+	})
 	if realHandlers {
 		termMon = m // the package-level monitor the real handlers report to
 		c.AtEnd(func() { termMon = nil })
@@ -413,6 +453,16 @@ func runTermMon(c *harness.Ctx) {
 	lateHandlers := t.Draw("late", 3) == 2 // handlers that start after SIGINT (already accepted connections)
 	c.Info["handlers"], c.Info["sigterm_follows"], c.Info["late_handlers"] = nHandlers, sendTERM, lateHandlers
 	violatedEarly := ""
+	// a handler that has returned has closed the connection it was given (and
+	// whatever it opened itself: checked through outConns below)
+	var outConns []*simnet.Conn
+	checkClosed := func(conn *simnet.Conn, which string) {
+		if !conn.Closed() {
+			c.Violate("C19/handler-left-connection-open", "%s returned and left its connection open", which)
+		}
+	}
+	trackOut = func(conn *simnet.Conn) { outConns = append(outConns, conn) }
+	c.AtEnd(func() { trackOut = func(*simnet.Conn) {} })
 	for i := 0; i < nHandlers; i++ {
 		i := i
 		startDelay := []int{0, 0, 1, 10, 100}[t.Draw("hstart", 5)]
@@ -423,16 +473,36 @@ func runTermMon(c *harness.Ctx) {
 		if realHandlers {
 			// the real connection handlers of obfs4proxy with stub factories:
 			// whatever path they take, starts and finishes must pair up
-			kind := t.Draw("hkind", 4)
+			kind := t.Draw("hkind", 6)
 			c.S.Go(fmt.Sprintf("h%d/handler", i), func() {
 				c.S.Sleep(time.Duration(startDelay) * time.Millisecond)
 				active++
 				defer func() { active-- }()
 				switch kind {
+				case 4, 5: // bridge side: handshake succeeds, the ORPort is dialled (and answers, or refuses)
+					l := c.Net.NewLink(fmt.Sprintf("peer%d", i), fmt.Sprintf("h%d", i))
+					c.S.Go(fmt.Sprintf("peer%d/client", i), func() {
+						l.A.Write([]byte("hello relay"))
+						buf := make([]byte, 64)
+						for {
+							if _, err := l.A.Read(buf); err != nil {
+								l.A.Close()
+								return
+							}
+						}
+					})
+					if kind == 4 {
+						c.Feature("real-serverHandler-relayed")
+					} else {
+						c.Feature("real-serverHandler-orport-refused")
+					}
+					serverHandler(&stubServerFactory{c: c, delay: time.Duration(work/2) * time.Millisecond, inWork: &inWork, ok: true, orFails: kind == 5, orWork: time.Duration(work) * time.Millisecond, idx: i}, l.B, nil)
+					checkClosed(l.B, "serverHandler (relay path)")
 				case 0: // bridge side: the transport handshake fails (after a while)
 					l := c.Net.NewLink(fmt.Sprintf("peer%d", i), fmt.Sprintf("h%d", i))
 					c.Feature("real-serverHandler-failed-handshake")
 					serverHandler(&stubServerFactory{c: c, delay: time.Duration(work) * time.Millisecond, inWork: &inWork}, l.B, nil)
+					checkClosed(l.B, "serverHandler (failed handshake)")
 				case 1: // client side: tor sends garbage instead of a SOCKS5 request
 					l := c.Net.NewLink(fmt.Sprintf("tor%d", i), fmt.Sprintf("h%d", i))
 					c.S.Go(fmt.Sprintf("tor%d/garbage", i), func() {
@@ -446,6 +516,7 @@ func runTermMon(c *harness.Ctx) {
 					})
 					c.Feature("real-clientHandler-bad-socks")
 					clientHandler(&stubClientFactory{c: c}, l.B, nil)
+					checkClosed(l.B, "clientHandler (bad SOCKS request)")
 				default: // client side: SOCKS5 ok, (stub) transport dial ok or refused, then a short relay
 					l := c.Net.NewLink(fmt.Sprintf("tor%d", i), fmt.Sprintf("h%d", i))
 					cf := &stubClientFactory{c: c, fail: kind == 3, work: time.Duration(work) * time.Millisecond, idx: i, inWork: &inWork}
@@ -474,6 +545,7 @@ func runTermMon(c *harness.Ctx) {
 						c.Feature("real-clientHandler-relayed")
 					}
 					clientHandler(cf, l.B, nil)
+					checkClosed(l.B, "clientHandler")
 				}
 			})
 			continue
@@ -568,11 +640,26 @@ func runTermMon(c *harness.Ctx) {
 	c.S.StopOnViolation = false
 	c.S.Run(func() bool { return c.S.Live() <= 1 }, 3*time.Hour)
 	drain = false
+	if active == 0 && !c.S.Violated() {
+		for _, oc := range outConns {
+			if !oc.Closed() {
+				c.Violate("C19/handler-left-connection-open", "every handler has returned; the connection %s that one of them had opened (to the bridge / to the ORPort) is still open", oc.Name())
+				break
+			}
+		}
+	}
 	_ = io.EOF
 	_ = sim.StopCond
 }
 
 // ---- stub factories for the real connection handlers ----------------------------
+
+// trackOut records connections that handlers open themselves (set per run).
+var trackOut = func(*simnet.Conn) {}
+
+// ors maps a wrapped bridge-side connection to the factory that accepted it,
+// so that the ORPort dial that follows knows which simulated ORPort to build.
+var ors map[net.Conn]*stubServerFactory
 
 type stubTransport struct{}
 
@@ -585,6 +672,12 @@ type stubServerFactory struct {
 	c      *harness.Ctx
 	delay  time.Duration
 	inWork *int
+	// ok: the handshake succeeds (the "transport" is the identity); the ORPort
+	// dial that follows is served by the simulation (orFails: refused)
+	ok      bool
+	orFails bool
+	orWork  time.Duration
+	idx     int
 }
 
 func (f *stubServerFactory) Transport() base.Transport { return stubTransport{} }
@@ -596,6 +689,10 @@ func (f *stubServerFactory) WrapConn(conn net.Conn) (net.Conn, error) {
 	f.c.S.Sleep(f.delay)
 	if f.inWork != nil {
 		*f.inWork--
+	}
+	if f.ok {
+		ors[conn] = f
+		return conn, nil
 	}
 	return nil, fmt.Errorf("stub: handshake failed")
 }
@@ -625,6 +722,7 @@ func (f *stubClientFactory) Dial(network, addr string, dialFn base.DialFunc, arg
 		return nil, &net.OpError{Op: "dial", Net: "tcp", Err: syscall.ECONNREFUSED}
 	}
 	l := f.c.Net.NewLink(fmt.Sprintf("h%d", f.idx), fmt.Sprintf("bridge%d", f.idx))
+	trackOut(l.A)
 	f.c.S.Go(fmt.Sprintf("bridge%d/far", f.idx), func() {
 		buf := make([]byte, 64)
 		if _, err := l.B.Read(buf); err != nil {
